@@ -119,31 +119,55 @@ def run_lines(binary, lines, env=None, timeout=900, model=False):
     e["HARNESS_SCRATCH"] = os.path.join(RUN, "files")
     if env: e.update(env)
     data = "\n".join(lines) + "\n"
+    if model:
+        try:
+            p = subprocess.run([binary], input=data, text=True, stdout=subprocess.PIPE,
+                               stderr=subprocess.DEVNULL, env=e, timeout=timeout, preexec_fn=_limits)
+            out = p.stdout.split("\n")
+            if out and out[-1] == "": out.pop()
+            return out, p.returncode
+        except subprocess.TimeoutExpired as ex:
+            raw = ex.stdout or ""
+            if isinstance(raw, bytes): raw = raw.decode("utf-8", "replace")
+            out = raw.split("\n")
+            if out and out[-1] == "": out.pop()
+            if out: out.pop()      # the last line may be partial
+            return out, "timeout"
+    # the implementation answers into a file: print / princ of the program under test write to stdout
+    os.makedirs(RUN, exist_ok=True)
+    outp = os.path.join(RUN, "answers-%d-%d.txt" % (os.getpid(), int(time.time() * 1e6) % 10**9))
+    e["HARNESS_OUT"] = outp
+    rc = None
     try:
-        p = subprocess.run([binary], input=data, text=True, stdout=subprocess.PIPE,
-                           stderr=subprocess.DEVNULL, env=e, timeout=timeout,
-                           preexec_fn=_limits if model else None)
-        out = p.stdout.split("\n")
-        if out and out[-1] == "": out.pop()
-        return out, p.returncode
-    except subprocess.TimeoutExpired as ex:
-        raw = ex.stdout or ""
-        if isinstance(raw, bytes): raw = raw.decode("utf-8", "replace")
-        out = raw.split("\n")
-        if out and out[-1] == "": out.pop()
-        if out: out.pop()      # the last line may be partial
-        return out, "timeout"
+        p = subprocess.run([binary], input=data, text=True, stdout=subprocess.DEVNULL,
+                           stderr=subprocess.DEVNULL, env=e, timeout=timeout)
+        rc = p.returncode
+    except subprocess.TimeoutExpired:
+        rc = "timeout"
+    try:
+        raw = open(outp, encoding="utf-8", errors="replace").read()
+    except FileNotFoundError:
+        raw = ""
+    try: os.remove(outp)
+    except OSError: pass
+    out = raw.split("\n")
+    if out and out[-1] == "": out.pop()
+    elif out and rc is not None and rc != 0: out.pop()   # partial last line
+    return out, rc
 
 def case_starts(lines):
     return [i for i, l in enumerate(lines) if l == "NEW"]
 
 def run_resilient(binary, lines, env=None, timeout=900, model=False, died_marker="ABORT"):
     """Like run_lines, but when the process dies or hangs in the middle, the case (NEW … next
-    NEW) it was in gets `died_marker` answers and the run resumes with the next case."""
+    NEW) it was in gets `died_marker` answers from the failing request on and the run resumes with
+    the next case.  The first pass runs with buffered output; after a death the run is resumed
+    from the start of the affected case with per-line flushing, so that the position is exact."""
     answers = [None] * len(lines)
     starts = case_starts(lines) or [0]
     pos = 0
     e2 = dict(env or {})
+    exact = bool(model) or ("HARNESS_FLUSH" in e2)
     while pos < len(lines):
         out, rc = run_lines(binary, lines[pos:], env=e2, timeout=timeout, model=model)
         for k, a in enumerate(out):
@@ -152,13 +176,18 @@ def run_resilient(binary, lines, env=None, timeout=900, model=False, died_marker
         done = pos + len(out)
         if done >= len(lines):
             break
+        if not exact:
+            # answers may have been lost in the output buffer: redo from the start of that case
+            e2["HARNESS_FLUSH"] = "1"
+            exact = True
+            pos = max([s for s in starts if s <= done] or [0])
+            continue
         # the process stopped while answering line `done`
         marker = "TIMEOUT" if rc == "timeout" else died_marker
         nxt = next((s for s in starts if s > done), len(lines))
         for k in range(done, nxt):
             answers[k] = marker
         pos = nxt
-        e2["HARNESS_FLUSH"] = "1"
     return answers
 
 # ------------------------------------------------------------------------------------------
